@@ -3,6 +3,7 @@
 mptcore/array/meta_buffer.c, mptcore/types/iterator_consume.c)."""
 import ctypes, math, re, struct
 from fractions import Fraction
+import vcheck
 from vcheck import DiffProperty, ASAN_ENV
 
 # ------------------------------------------------------------------ libc oracle (strtod / strtoumax per offset)
@@ -72,7 +73,10 @@ PATCH_STRING_META_TARGET = True    # docs/C19_string_meta_target.diff  (text ite
 
 PATCH_VALUES_TEXT = True           # docs/C19_values_text.diff  (value list metatype to 's': description text; op d on value lists)
 
+PATCH_SPAN_NEGATIVE_LENGTH = True   # docs/C19_span_negative_length.diff  (mpt::span / mpt::source<T> created with a negative length)
+
 TEXT_KINDS = ("create", "values", "string")
+CXX_KINDS = ("csrc", "cdef")       # cases run by harness/c19_src.cpp
 GRID_KINDS = ("poly", "profile")
 
 
@@ -129,6 +133,27 @@ def restrict_values_text(kind, arg, ops):
     if not maybe_list:
         return ops
     return [o for o in ops if o not in "dD"] or ["v"]
+
+
+SRC_OPS = "vvvaaaarcwVVAARCW"
+
+
+def gen_csrc(rng):
+    """mpt::source<T>(block, len, step): T,len,step;values"""
+    ty = rng.choice("diy")
+    n = rng.choice([0, 1, 2, 3, 3, 5, 5, 8, 12, 45])
+    lo, hi = {"d": (-1000, 1000), "i": (-2**31, 2**31 - 1), "y": (0, 255)}[ty]
+    vals = [rng.choice([0, 1, lo, hi, rng.randint(lo, hi), rng.randint(-9, 9) if ty != "y" else rng.randint(0, 9)]) for _ in range(n)]
+    ln = rng.choice([n, n, n, n, 0, max(0, n - 1), n // 2, 1 if n else 0, -1, -1, -2, -n - 1, -2**31, -2**62])
+    if ln < 0 and not PATCH_SPAN_NEGATIVE_LENGTH:
+        ln = rng.choice([n, 0, n // 2])
+    step = rng.choice([1, 1, 1, 1, -1, -1, 2, -2, 3, -3, 5, n or 1, -(n or 1), n + 1, 1000, -1000, 2**31 - 1, -2**31, 0])
+    ops = [rng.choice(SRC_OPS) for _ in range(rng.choice([1, 2, 3, 5, 8, 12, 20, 30]))] if rng.random() < 0.7 else \
+        list(rng.choice(["vavavavavavaava", "wrw", "wcWrW", "vacVAvaVA", "aaavrv", "vavrvavcWw", "wwrwcW", "arw", "rvw"]))
+    if step == 0:
+        # never ends: keep the history short (every documented loop runs to its limit of 40)
+        ops = ops[:8]
+    return "csrc %s,%d,%d;%s - %s" % (ty, ln, step, ",".join(str(v) for v in vals) or "-", " ".join(ops))
 
 
 def no_desc(ops):
@@ -454,7 +479,11 @@ class C19(DiffProperty):
             "conversion of the text-iterator metatype to 's' WITHOUT target (op n) is generated only with PATCH_STRING_META_TARGET; "
             "while PATCH_VALUES_TEXT is False op d is not generated on sources that may be value lists (kinds values, rset it;values, "
             "create with a text that does not start with lin/fac/range) - op m, which reports result codes and whether a text was handed "
-            "out but not the text, runs everywhere.")
+            "out but not the text, runs everywhere. Kinds csrc / cdef are run by a second binary (harness/c19_src.cpp, C++): "
+            "mpt::source<T>(block, len, step) for T = double, int32_t, uint8_t over exact-size heap blocks of 0..45 elements, len = 0, "
+            "part, all and - only with PATCH_SPAN_NEGATIVE_LENGTH - negative (-1, -2, -n-1, -2^31, -2^62), steps +-1, +-2, +-3, 5, +-n, n+1, "
+            "+-1000, INT_MAX, INT_MIN and 0, histories of value / advance / reset / copy construction / documented loop on the source and its "
+            "copy; cdef = an iterator subclass that only implements value() (default advance()/reset() of types.h).")
     modelled = ("mptplot/values/{iterator_linear,iterator_factor,iterator_boundary,iterator_poly,iterator_values,iterator_create,"
                 "iterator_profile,values_linear,values_bound,range_set}.c, mptcore/meta/iterator_string.c (element conversions to double, "
                 "uint32, string, keyword incl. mpt_convert_key with separator configurations, 'c' vector; clone; result codes of the "
@@ -467,23 +496,32 @@ class C19(DiffProperty):
                 "(docs/C19_string_key_separator.diff, docs/C19_string_vector.diff); the metatype conversions of the five generator files "
                 "(iterConv, iterFactorConv, iterBoundaryConv, iterPolyConv, iterValueConv) are result-code tables, the description a value "
                 "list hands out is modelled AS PATCHED (docs/C19_values_text.diff: the text kept behind the object) and used by op d. "
-                "NOT modelled: the C++ value source mpt::source<T> and the default iterator::advance/reset of mptcore/types.h (no C++ harness "
-                "for C19; see notes, open finding span negative length), the 'file' profile, the CONTENT of the "
+                "mpt::source<T> of mptcore/types.h is modelled as an eighth kind SSrc (csrc: elements of the span, position, step, type id; "
+                "mk_csrc = the constructor AS PATCHED by docs/C19_span_negative_length.diff: negative length = empty span); the default "
+                "iterator::advance()/reset() are two constants (MissingData, BadOperation) compared with the code by the driver, not in Coq. "
+                "NOT modelled: the 'file' profile, the CONTENT of the "
                 "'s'/vector conversions of the text-iterator METATYPE (they hand out the separator configuration, see notes), typed "
                 "(non-char) buffers (harness syntax <hex>@<type> exists, generator does not emit it), errno values, allocation failure")
-    trusted = ["libc strtod / strtoumax (value, consumed length, ERANGE) are an oracle: the generator asks the same libc through ctypes for every "
+    trusted = ["harness/c19_src.cpp reads the element through value()->type()/data() (type must be the id of T) instead of the conversion layer; "
+               "the copy of a source (op c) is C++ copy construction; element blocks are exact-size heap blocks",
+               "libc strtod / strtoumax (value, consumed length, ERANGE) are an oracle: the generator asks the same libc through ctypes for every "
                "offset of every text and the model consumes the table; isspace/isgraph/isalpha of the 'C' locale are ASCII tables in the model",
                "IEEE-754 binary64 round-to-nearest-even of the host (SSE2, no contraction at -O1) is what rnd64 in IterModel.v computes; this is "
                "validated by the bit-exact comparison of every value, not proved",
                "harness/c19_iter.c reads values the way examples/iter.c does (value(), mpt_value_convert to 'd'); texts live in exact-size heap blocks; "
                "keywords are read as C strings up to the terminator the iterator wrote, vectors by base and length (lengths above 100000 are printed as 'wild')"]
-    level_text = ("proof: 43 Coq theorems (coq/C19/Properties.v), all for EVERY arithmetic rnd : Q -> fv, every count in N and every history, no "
+    level_text = ("proof: 44 Coq theorems (coq/C19/Properties.v), all for EVERY arithmetic rnd : Q -> fv, every count in N and every history, no "
                   "bound. Protocol: C19_walk_visits_exactly / C19_walk_of_nothing / C19_text_walk_visits_exactly (documented loop yields exactly "
                   "the remaining denoted sequence and stops), C19_past_end_reported, C19_reset_replays + C19_denoted_stable, C19_clone_replays / "
                   "C19_clone_refines, C19_history_refines (any interleaving of value/advance/reset/clone/skip on source and clone, all seven kinds), "
                   "C19_history_refines_desc (the same with re-creation of a generator from the description it hands out: a value list re-created from "
                   "its own text stands at the start of the same denoted sequence whatever position it was described at, the other generators refuse), "
                   "C19_values_reset_total (the reset of a value list cannot fail: both error branches of iterValueReset are unreachable), "
+                  "C19_source_fresh (mpt::source<T>: for every element list, every length - negative, 0, up to the number of elements - and every "
+                  "step but 0 the constructor result satisfies the invariant, is numeric and stands at the start of what it denotes; a negative "
+                  "length denotes nothing; step 1 denotes the first len elements in order - so C19_walk_visits_exactly, C19_walk_of_nothing, "
+                  "C19_past_end_reported, C19_reset_replays, C19_denoted_stable, C19_clone_replays and C19_history_refines hold for this kind as "
+                  "they stand: coq/C19/IterSource.v proves that position/step arithmetic refines the cursor over the visited elements), "
                   "C19_build_fresh / C19_buffer_fresh / C19_text_fresh (any separators). Text iterator read as keywords / 'c' vectors, every "
                   "separator configuration: C19_byte_history_refines (any interleaving of such reads with and without target, advance, reset, "
                   "clone on source and clone refines the cursor over the elements the text denotes for that reader), "
@@ -511,9 +549,13 @@ class C19(DiffProperty):
                   "mptplot/values/iterator_values.c: the 's' conversion hands out `(char *) d + 1` (one byte into the object) instead of the text "
                   "behind it - replay docs/C19_replay_values_text.json (`create \"3 4\"` | a d: re-creation refused, D:0 vs D:1), patch "
                   "docs/C19_values_text.diff, switch PATCH_VALUES_TEXT (False: op d is kept off value lists); model and theorems describe the code "
-                  "WITH the patch. OPEN FINDING not under the check: mpt::span<T>(ptr, negative length) keeps a huge byte length, so "
-                  "mpt::source<T>(ptr, -1) reports a further element after none and hands out a value at address 8 (docs/C19_span_negative_length.diff, "
-                  "probe docs/C19_span_negative_length_probe.cpp). The three defects in mptcore/meta/iterator_string.c are committed (replays "
+                  "WITH the patch (committed as 8cf6121, switch True). OPEN DEFECT in mptcore/types.h: mpt::span<T>(ptr, negative length) keeps "
+                  "len * sizeof(T) as byte length (2^61-1 elements for a double), so mpt::source<T>(ptr, -1) reports a further element after none, "
+                  "hands out a value at address 8 (ASan SEGV on reading it) and reset() returns -1 - replay docs/C19_replay_span_negative_length.json "
+                  "(`csrc d,-1,1;1,-4,78` | v a v: N A:100 F vs N A:- N), patch docs/C19_span_negative_length.diff, switch "
+                  "PATCH_SPAN_NEGATIVE_LENGTH (False: negative lengths are not generated, corpus/C19/patched_span_negative_length.cases not loaded); "
+                  "model and theorem describe the code WITH the patch. A source with step 0 never ends (advance keeps answering the type): compared "
+                  "with the mechanism model only, the cursor theorems need step <> 0. The three defects in mptcore/meta/iterator_string.c are committed (replays "
                   "docs/C19_replay_string_vector*.json, docs/C19_replay_string_key_separator*.json, docs/C19_replay_string_meta_target.json; "
                   "patches docs/C19_string_vector.diff, docs/C19_string_key_separator.diff, docs/C19_string_meta_target.diff): the model and "
                   "the theorems describe the code with these patches (switches PATCH_STRING_VECTOR / PATCH_STRING_KEY_SEPARATOR / "
@@ -540,6 +582,8 @@ class C19(DiffProperty):
             skip.add("patched_string_meta_target.cases")
         if not PATCH_VALUES_TEXT:
             skip.add("patched_values_text.cases")
+        if not PATCH_SPAN_NEGATIVE_LENGTH:
+            skip.add("patched_span_negative_length.cases")
         cs = []
         for f in sorted(os.listdir(d)):
             if f in skip or not f.endswith(".cases"):
@@ -555,6 +599,40 @@ class C19(DiffProperty):
                         line = " ".join(t[:3] + restrict_values_text(t[0], arg, t[3:]))
                     cs.append(line)
         return cs
+
+    # ---- two harness binaries: cases of kind csrc / cdef are run by the C++ harness harness/c19_src.cpp
+    cxx_harness_src = "c19_src.cpp"
+    cxx_libs = ["mpt++", "mptcore"]     # value's copy constructor (copy of a source) lives in mpt++/value.cpp
+
+    def warm(self):
+        DiffProperty.warm(self)
+        vcheck.build_harness(self.cxx_harness_src, self.cxx_libs)
+
+    def evaluate(self, cases, workdir, tagsuffix=""):
+        hx = vcheck.build_harness(self.harness_src, self.libs, extra=self.extra_harness_flags)
+        mx = vcheck.build_model(self.mlname, self.driver, self.extract_vo)
+        ided = ["c%d %s" % (i, c) for i, c in enumerate(cases)]
+        is_cxx = [c.split()[:1][0] in CXX_KINDS if c.split() else False for c in cases]
+        c_cases = [l for l, x in zip(ided, is_cxx) if not x]
+        x_cases = [l for l, x in zip(ided, is_cxx) if x]
+        I, errs = {"I": {}}, []
+        if c_cases:
+            r, e = vcheck.run_cases(hx, c_cases, workdir, "impl" + tagsuffix, env=self.harness_env, args=self.harness_args)
+            I["I"].update(r.get("I", {})); errs += e
+            late = [l for l in c_cases if any(t.startswith("F:timeout") for t in (I["I"].get(l.split(None, 1)[0]) or []))]
+            if late and not self.harness_args:
+                r, e = vcheck.run_cases(hx, late, workdir, "implate" + tagsuffix, env=self.harness_env, args=["60"], shards=min(4, len(late)))
+                I["I"].update(r.get("I", {})); errs += e
+        if x_cases:
+            cx = vcheck.build_harness(self.cxx_harness_src, self.cxx_libs)
+            r, e = vcheck.run_cases(cx, x_cases, workdir, "implcxx" + tagsuffix, env=self.harness_env, args=self.harness_args)
+            I["I"].update(r.get("I", {})); errs += e
+        M, e2 = vcheck.run_cases(mx, ided, workdir, "model" + tagsuffix)
+        res = []
+        for i, c in enumerate(cases):
+            k = "c%d" % i
+            res.append(self.compare(c, I["I"].get(k), M.get("M", {}).get(k), M.get("S", {}).get(k)))
+        return res, errs + e2
 
     # ---- case structure
     def split(self, case):
@@ -757,6 +835,18 @@ class C19(DiffProperty):
         cases.append(mk_sep_case(b"", b"a b:c d", list("jrycYAJ")))
         for k, b in [("buffer", b"ab\0cd\0"), ("args", b"ab\0cd\0"), ("args", b"abc"), ("buffer", b"12\0t"), ("args", b"x\0")]:
             cases.append(" ".join([k, hx(b), "-"] + list("mkwzmazcMKWZ")))
+        # the C++ value source mpt::source<T> and the default iterator::advance()/reset() of mptcore/types.h
+        for hdr in ["d,3,1;1,-4,78", "i,5,-2;1,2,3,4,5", "y,4,1;0,255,7,9", "d,0,1;-", "d,0,-1;1", "i,1,1;7", "i,1,-1;7", "y,3,3;1,2,3",
+                    "y,3,4;1,2,3", "d,2,1;1,2,3", "i,4,-3;1,2,3,4", "d,3,0;1,2,3"]:
+            for o in ["vavavavavava", "wrw", "wcWrW", "aaavrv", "rvavcVAW"]:
+                cases.append("csrc %s - %s" % (hdr, " ".join(o)))
+        if PATCH_SPAN_NEGATIVE_LENGTH:
+            for hdr in ["d,-1,1;1,2,3", "d,-1,-1;1,2,3", "i,-5,2;1", "y,-1,1;-", "d,-4611686018427387904,1;1", "i,-2147483648,-1;1,2"]:
+                for o in ["vavav", "avav", "wrw", "rvaw", "cVAVW"]:
+                    cases.append("csrc %s - %s" % (hdr, " ".join(o)))
+        cases += ["cdef 7 - v a v a r v w w", "cdef -3 - w r a v"]
+        for i in range(n // 16):
+            cases.append(gen_csrc(rng))
         cases += ["buffer n - m z k w", "args n - m z k w", "rset itn -", "rset vecn -", "rset vecb;16 -",
                   "rset vec;16;3ff0000000000000,4000000000000000 -", "rset vec;24;3ff0000000000000,4000000000000000,4008000000000000 -",
                   "rset type;s -", "rset type;d -"]
